@@ -171,6 +171,7 @@ def verify_case(unit_name, case, prop=None, tier="quick", opts=None):
             if ground_req:
                 clauses.append(("*", "requires:%d call-site preconditions of L0 contracts hold by ground evaluation" % ground_req, True))
             canaries = list(unit.canaries(case, a, out, X))
+            canaries.append(("canary:false-under-the-path-condition (vacuity guard)", False))
             diffs = guard.diff(written=[w[0] for w in ctx.writes])
             if prop == "C09" and getattr(unit, "frame_check", False):
                 clauses.extend(frame_clauses(unit, ctx, guard, diffs))
